@@ -5,6 +5,48 @@ V = os.path.dirname(os.path.dirname(os.path.abspath(__file__)))
 
 CHECKS = {
 
+ 'C15': dict(
+   technique='runtime round-trip monitor + sanitizer fuzzing: Data::toJSON/fromJSON and Event::operator Data/fromData called directly in the ASan/UBSan build on generated trees, events and mutated byte strings; results compared by Data::operator== and an independent structural walk; crashes classified by a transcription of the parser that names the first undefined step',
+   text='Exploration: seeded random Data trees (strings/keys over all byte values but NUL, numbers, nested arrays/maps, empty nodes, top-level atoms) must satisfy fromJSON(toJSON(d)) == d; random events must survive Event::fromData(Data(e)) field by field; mutated/random byte strings must make fromJSON return or throw without sanitizer report, signal or hang.',
+   note='Trusted: vf/dtree.py comparison, harness/vdata.h wire format; vf/json_ref.py only names crash classes. Data::operator== consulted up to depth 12 (it is exponential in depth). No uninitialised-read detection.',
+   ref='DESIGN.md 3/C15'),
+ 'C16': dict(
+   technique='runtime round-trip monitor on the real interpreter (datamodel lua, ASan/UBSan build, in-process driver): generated values sent along every entry/exit route and read back with evalAsData; denotational comparison in Python; failing routes classified by a causal test (re-run with the suspected trigger feature neutralised); system-variable assignment attempts observed via before/after reads and the processed-event stream',
+   text='Exploration: seeded random values (strings over all bytes incl. empty/number-like/Lua-like, integers, reals, booleans, arrays incl. >=10 elements, maps with non-numeric keys, nesting <=4) each run through one document covering 14 routes; what comes back must denote the same value. 7 forms of chart code x 5 system variables must raise error.execution and leave the variables unchanged.',
+   note='Trusted: vf/luaval.py. Numeric-keyed/mixed tables, nil, NUL bytes are outside the domain; inline content is written as Lua literals.',
+   ref='DESIGN.md 3/C16'),
+ 'C17': dict(
+   technique='runtime differential monitor: generated Promela expressions (two printings each), error cases and statement sequences are put to DataModel::evalAsData/evalAsBool/assign/init of a promela-datamodel interpreter in forked, replayable processes of the ASan+UBSan build (CPU-time watchdog) and compared with a C-int reference evaluator and a dict model of the store',
+   text='Exploration: random expression trees (depth <=5 quick / 7 thorough) over all 17 operators, variables, array elements and fields plus every ordered pair of binary operators in both nestings; minimal and full parenthesisation must both give the C-int value; ill-formed texts, /0, %0, out-of-range indices and undeclared names must be answered with an error; statement sequences are read back completely after every statement.',
+   note='Trusted: vf/pml_ref.py reference. Short-circuit behaviour, byte/bool truncation and operand order in time (beyond what error texts reveal) are not judged.',
+   ref='DESIGN.md 3/C17'),
+
+ 'C07': dict(level='fault_enumeration',
+   technique='fault injection + history/reference monitor: one failing element (or condition) injected at every position of every executable block of generated documents, runs on the ASan/UBSan build compared step by step with the reference in which the element enqueues its error and aborts its block; plus seeded XML mutants judged for crashes/hangs only',
+   text='Fault enumeration: for each generated document every (block, position) gets a failing element from the per-datamodel fault list (send to unknown type/target, illegal expression/location, system variable, foreach over non-array, cancel without id, /0, %0, ...), 30% nested in an <if>; the error event must be processed in queue order, nothing after the element in its block may run, following blocks must run, the interpreter keeps stepping; no signal, sanitizer report or hang. Mutated well-formed XML goes through fromXML+validate+stepping.',
+   note='Trusted: vf/refscxml.py with fail actions; expected error names in vf/checks/c07.py. Memory safety as far as ASan/UBSan see it.',
+   ref='DESIGN.md 3/C07'),
+ 'C08': dict(
+   technique='history checker over recorded multi-threaded executions + ThreadSanitizer/AddressSanitizer: N producer threads call receive() against one stepping thread, seeded yields at USCXML_VERIF schedule points; offline exactly-once / per-producer FIFO / macrostep-rule checker; TSan reports attributed by anchored files',
+   text='Exploration of schedules by stress and injected yields: every sent event must be processed exactly once, per producer in order, and each external event must be followed by exactly the prescribed internal sequence and one stable notice; data races in the queue/interpreter code are violations. Evidence counts distinct interleaving signatures.',
+   note='Interleavings are sampled, not enumerated. TSan only sees synchronisation it intercepts; reports without a frame in the anchored files are listed, not judged.',
+   ref='DESIGN.md 3/C08'),
+ 'C09': dict(
+   technique='timestamped history checker + forced-window schedules + sanitizers: delayed sends/cancels recorded with a monotonic clock (plain, TSan, ASan builds); scripts park the timer thread at schedule points between fire and deliver while <cancel>/destruction runs; hangs reported with gdb stack samples',
+   text='Exploration: timing charts with 4-14 delayed sends and cancels (not-early and exactly-once hard, order/cancel rules with 50 ms margin) and four forced race scripts; outcome of a racing cancel must be 0 or 1 delivery without deadlock, crash, double delivery or sanitizer report.',
+   note='Real time is involved: only lower bounds and generous margins are judged. A script whose window is never reached makes the run inconclusive.',
+   ref='DESIGN.md 3/C09'),
+ 'C10': dict(
+   technique='online life-cycle automaton over step() results of seeded API scripts (ASan), cross-thread cancel/receive/destroy runs and create/destroy churn with forced timer-thread windows (TSan/ASan), reset-vs-fresh trace equality; hangs with gdb stack evidence',
+   text='Exploration: 400+ API scripts over {step, receive, cancel, reset, serialize, destroy, create}; stepper blocked in step() cancelled/fed from another thread must finish with each onexit once and destruction returning; churn of short-lived interpreters with yields at the lost-wake-up window; trace(h1; reset; h2) = trace(fresh h2).',
+   note='"Always terminates" = terminated within the watchdog in every explored schedule. Unbounded liveness is outside runtime monitoring.',
+   ref='DESIGN.md 3/C10'),
+ 'C19': dict(
+   technique='runtime oracle on Interpreter::validate(): valid-by-construction documents must get no FATAL/syntax issue; single-fault documents that pass validation are executed on both engines (ASan/UBSan, legality monitor) and transformed; XML mutants validate without crash',
+   text='Exploration: 400 valid documents (id-less states, multi-target deep initials, real lua/promela expressions) and 600 single-fault documents of 14 kinds per quick run; "no fatal issue" must imply a safe run (no crash, no exception at initialisation, legal configurations) and a safe transformation.',
+   note='"Valid" = valid by the generator\'s construction rules. A reported fault is counted, not judged.',
+   ref='DESIGN.md 3/C19'),
+
  'C14': dict(
    technique='history + differential runtime monitor: snapshot (serialize) at every stable point of generated runs, resume (deserialize) in a fresh interpreter, both driven with the same continuation and every callback/log/configuration/data record compared; negative oracle with a foreign document; ASan/UBSan build',
    text='Exploration: documents x histories x every stable point (with 0-2 external events still queued, and with delayed sends pending) x both engines; the resumed trace must equal the original from the first processed event on; a state string of a document differing by one comment must be rejected.',
